@@ -255,7 +255,7 @@ def main(argv=None):
             confirmed = next((rp for rp in o["replays"] if rp.get("failed")), None)
             if confirmed is None and o.get("imprecise"):
                 # every failing path went through a loop cut without invariant (over-approximation): not a verdict
-                undecided.append(f"{full}: fails only on paths through a loop without invariant and no replay confirms it")
+                undecided.append(f"{full}: fails only on over-approximated paths (loop without invariant, uninterpreted library model) and no replay confirms it")
                 continue
             kf = match_finding(findings, r["target"], name, confirmed, o)
             if kf is not None:
